@@ -118,6 +118,10 @@ class ConfGen:
                 cfg_aliases.append([fname, "C_" + fname])
             if p < 0.27 and r.random() < (0.5 if self.plain_wire else 0.15):
                 cfg_aliases.append([fname, "C_" + fname])          # two sources on one field: the more specific one wins
+            if self.plain_wire and t in (DATE, ["opt", DATE]) and r.random() < 0.5:
+                # schema subjects: a field-level strategy that overrides ONE direction only, over a class-level typed strategy
+                opts.append(["strategy", r.choice([["mark", "fs_" + fname, "deser"], ["typed", "ft_" + fname, "ser"], ["typed", "ft_" + fname, "both"]])])
+                self._want_typed = True
             if not self.plain_wire and t in (DATE, LD, ["opt", DATE]) and r.random() < 0.2:
                 opts.append(["strategy", r.choice([mark("fs_" + fname), mark("fs_" + fname, "ser"), mark("fs_" + fname, "deser"), ["pass_through"]])])
             q = r.random()
@@ -157,6 +161,9 @@ class ConfGen:
             cfg.append(["flags", fl])
         if not self.plain_wire and r.random() < 0.3:
             cfg.append(["dialect", self.dialect("CD" + name)])
+        if self.plain_wire and getattr(self, "_want_typed", False) and r.random() < 0.7:
+            cfg.append(["cfg_strategy", [[DATE, ["typed", "ct" + name.lower(), r.choice(["ser", "both"])]]]])
+        self._want_typed = False
         if not self.plain_wire and r.random() < 0.2:
             t = self.table("cs" + name.lower())
             if t:
